@@ -53,6 +53,9 @@ struct Step {
     fields: Vec<Vec<String>>,
     #[serde(default)]
     cs: Vec<usize>,
+    /// tcp_client life-cycle probe: the command handed in while the task is held in state `src`
+    #[serde(default)]
+    cmd: String,
 }
 
 #[derive(Deserialize, serde::Serialize, Clone)]
@@ -626,6 +629,107 @@ fn cabi_client_destroy(ch: usize, rt: usize) {
     }
 }
 
+// ---- black-box life-cycle of the plain TCP channel task on real sockets (no connector hook): a command handed in
+// ---- exactly while the task is in a given state
+struct GateListener {
+    sink: Sink,
+    states: Arc<std::sync::Mutex<Vec<String>>>,
+    gate_at: String,
+    hit: Arc<tokio::sync::Notify>,
+    release: Arc<tokio::sync::Notify>,
+    armed: Arc<std::sync::atomic::AtomicBool>,
+}
+
+impl rodbus::client::Listener<rodbus::client::ClientState> for GateListener {
+    fn update(&mut self, value: rodbus::client::ClientState) -> MaybeAsync<()> {
+        let name = format!("{value:?}").split('(').next().unwrap_or("").to_string();
+        self.sink.emit(json!({"e":"cstate","state":name}));
+        self.states.lock().unwrap().push(name.clone());
+        if name == self.gate_at && self.armed.swap(false, std::sync::atomic::Ordering::SeqCst) {
+            // the task stays in this notification until the harness has handed in its command
+            let (hit, release) = (self.hit.clone(), self.release.clone());
+            return MaybeAsync::asynchronous(async move {
+                hit.notify_one();
+                release.notified().await;
+            });
+        }
+        MaybeAsync::ready(())
+    }
+}
+
+async fn run_tcp_client_lifecycle(sc: &Scenario, sink: &Sink) {
+    use rodbus::client::*;
+    sink.emit(json!({"e":"tcpc_cfg","id":sc.id}));
+    for st in &sc.steps {
+        // op = "lc": fields src = state to gate at, kind = command, peer via `silent` (true = nobody listens)
+        let gate_at = st.src.clone();
+        let cmd = st.cmd.clone();
+        let listener = tokio::net::TcpListener::bind("127.0.0.1:0").await.unwrap();
+        let port = listener.local_addr().unwrap().port();
+        let refuse = st.silent;
+        let close_after_accept = st.c == 1;
+        let listener = if refuse { drop(listener); None } else { Some(listener) };
+        let states = Arc::new(std::sync::Mutex::new(Vec::new()));
+        let hit = Arc::new(tokio::sync::Notify::new());
+        let release = Arc::new(tokio::sync::Notify::new());
+        let armed = Arc::new(std::sync::atomic::AtomicBool::new(true));
+        let (channel, task) = create_tcp_client_task_with_options(
+            HostAddr::ip("127.0.0.1".parse().unwrap(), port),
+            doubling_retry_strategy(Duration::from_millis(150), Duration::from_millis(150)),
+            Some(Box::new(GateListener { sink: sink.clone(), states: states.clone(), gate_at: gate_at.clone(), hit: hit.clone(), release: release.clone(), armed: armed.clone() })),
+            ClientOptions::default(),
+        );
+        let mut task = tokio::spawn(task.run());
+        let acceptor = tokio::spawn(async move {
+            // the peer: accepts, and for the disconnect cases closes again at once
+            if let Some(l) = listener {
+                let mut held = Vec::new();
+                loop {
+                    match tokio::time::timeout(Duration::from_millis(2500), l.accept()).await {
+                        Ok(Ok((s, _))) => {
+                            if close_after_accept {
+                                drop(s);
+                            } else {
+                                held.push(s);
+                            }
+                        }
+                        _ => break,
+                    }
+                }
+            }
+        });
+        let _ = channel.enable().await;
+        let reached = tokio::time::timeout(Duration::from_millis(2500), hit.notified()).await.is_ok();
+        let gate_index = states.lock().unwrap().len();
+        let mut channel = Some(channel);
+        if reached {
+            sink.emit(json!({"e":"cmd","kind":cmd}));
+            match cmd.as_str() {
+                "shutdown" => {
+                    let ch = channel.clone().unwrap();
+                    tokio::spawn(async move { let _ = ch.shutdown().await; });
+                }
+                "disable" => {
+                    let ch = channel.clone().unwrap();
+                    tokio::spawn(async move { let _ = ch.disable().await; });
+                }
+                _ => channel = None,
+            }
+            tokio::time::sleep(Duration::from_millis(30)).await;
+            release.notify_one();
+        }
+        let ended = tokio::time::timeout(Duration::from_millis(1200), &mut task).await.is_ok();
+        let after: Vec<String> = states.lock().unwrap().clone();
+        sink.emit(json!({"e":"tcpc_lc","at":gate_at,"cmd":cmd,"refuse":refuse,"gate_reached":reached,"gate_index":gate_index,"states":after,"task_ended":ended}));
+        if !ended {
+            task.abort();
+        }
+        acceptor.abort();
+        drop(channel);
+    }
+    sink.emit(json!({"e":"scenario_end"}));
+}
+
 /// C09 client role (and the handshake-stall scenarios): the rodbus TLS client against a rustls server of the harness
 async fn run_tls_client(sc: &Scenario, sink: &Sink) {
     use rodbus::client::*;
@@ -866,6 +970,9 @@ async fn run_scenario(sc: &Scenario, sink: &Sink) {
     }
     if sc.variant == "tls_client" {
         return run_tls_client(sc, sink).await;
+    }
+    if sc.variant == "tcp_client" {
+        return run_tcp_client_lifecycle(sc, sink).await;
     }
     let (htx, mut hrx) = tokio::sync::mpsc::unbounded_channel::<Event>();
     {
